@@ -228,7 +228,9 @@ PROPS = {
     "C05": dict(pool_prop([]), theorems=[("GcpVerif.Proofs.PoolTables", "GcpVerif.Pool." + n) for n in
                 ["pool_connections_only", "tables_run"]] + [("GcpVerif.Proofs.PoolValid", "GcpVerif.Pool." + n) for n in
                 ["pool_never_panics", "slots_exist", "valid_run"]]),
-    "C06": pool_prop_plus([], [("GcpVerif.Proofs.Sync", "GcpVerif.Sync.c06_no_self_acquire"), ("GcpVerif.Proofs.Sync", "GcpVerif.Sync.c06_order_acyclic")], ["wall-clock bounds are observed by the harness watchdog (3 s per call), not proved"]),
+    "C06": pool_prop_plus([], [("GcpVerif.Proofs.Sync", "GcpVerif.Sync.c06_no_self_acquire"), ("GcpVerif.Proofs.Sync", "GcpVerif.Sync.c06_order_acyclic"),
+                                ("GcpVerif.Proofs.SyncOrder", "GcpVerif.Sync.no_wait_cycle"), ("GcpVerif.Proofs.SyncOrder", "GcpVerif.Sync.c06_order_certified"),
+                                ("GcpVerif.Proofs.SyncOrder", "GcpVerif.Sync.c06_edges_present")], ["wall-clock bounds are observed by the harness watchdog (3 s per call), not proved"]),
     "C07": dict(pool_prop(["disabled_never_refreshes", "response_resets", "isResponse_iff", "stale_call_ignored", "refresh_trigger", "window_exponential", "window_monotone_or_saturated", "refresh_once"], ["window_exponential: k < 63 and unresponsive_detection_ms * 2^k <= MaxInt64 ms; beyond that the window saturates at MaxInt64 ns (window_monotone_or_saturated; K2 was the uint32 wrap, fixed in 6463af4)"]), theorems=pool_thms(["disabled_never_refreshes", "response_resets", "isResponse_iff", "stale_call_ignored", "refresh_trigger", "window_exponential", "window_monotone_or_saturated", "refresh_once"]) +
                 [("GcpVerif.Proofs.PoolRefresh", "GcpVerif.Pool." + n) for n in ["one_replacement_per_slot", "refr_run", "refresh_in_progress_noop", "swap_takes_over"]] +
                 [("GcpVerif.Proofs.PoolKeys", "GcpVerif.Pool.stable_swap")]),
